@@ -101,7 +101,7 @@ func genSpec(rng *rand.Rand, id int) Spec {
 			sp.Hammer = true
 		}
 		if rng.IntN(4) == 0 {
-			// a multicast reader whose second SETUP races with ServerStream.Close (fixed: 9233c87)
+			// a multicast reader whose second SETUP races with ServerStream.Close (fixed: 7ba1087)
 			for k := 1 + rng.IntN(4); k > 0; k-- {
 				sp.Peers = append(sp.Peers, PeerSpec{Kind: "raw", Mode: "mcast2", Proto: "tcp"})
 			}
